@@ -28,22 +28,6 @@ namespace PrecondVerif.FD
 abbrev Vec (α : Type) (n : Nat) := Fin n → α
 abbrev Mat (α : Type) (m n : Nat) := Fin m → Fin n → α
 
-/-- tabulate a vector (identity function; keeps evaluation polynomial) -/
-def force {α : Type} {n : Nat} (v : Vec α n) : Vec α n :=
-  let a := Vector.ofFn v
-  fun i => a[i.1]'i.2
-
-@[simp] theorem force_eq {α : Type} {n : Nat} (v : Vec α n) : force v = v := by
-  funext i; simp [force]
-
-/-- tabulate a matrix (identity function) -/
-def forceM {α : Type} {m n : Nat} (A : Mat α m n) : Mat α m n :=
-  let a := Vector.ofFn fun i => Vector.ofFn (A i)
-  fun i j => (a[i.1]'i.2)[j.1]'j.2
-
-@[simp] theorem forceM_eq {α : Type} {m n : Nat} (A : Mat α m n) : forceM A = A := by
-  funext i j; simp [forceM]
-
 section Generic
 variable {α : Type} [Zero α] [One α] [Add α] [Sub α] [Mul α]
 
@@ -193,8 +177,8 @@ def dsFdUpdateRootO [Max α] {d k : Nat} (pw : α → α) (cfg : DsCfg α) (st :
   -- `new_tail = where(new_tail <= 0, 0, new_tail)`, `new_const = where(new_tail <= 0, 0, new_tail ** alpha)`
   let tail := if 0 < new.t then new.t else 0
   let out : DsOut α d k :=
-    { st := { V := forceM new.V, l := force new.l, t := tail }
-      inverted := force (invRoots k pw 0 cfg.β st.t o)
+    { st := { V := new.V, l := new.l, t := tail }
+      inverted := invRoots k pw 0 cfg.β st.t o
       const := if 0 < new.t then pw new.t else 0
       hasZeros := ((List.finRange k).any fun a => !(kept k o a)) || !(decide (0 < new.t)) }
   -- `val = where(padding_start == 0, 0, val)`
@@ -242,13 +226,13 @@ def skUndeflated [Max α] {d : Nat} (k : Nat) (β t : α) (o : SvdOut α d) (a :
 def sketchyUpdateAxisO [Max α] {d k : Nat} (sqrt pw : α → α) (epsilon : α) (relative : Bool) (β : α)
     (st : SkState α d k) (o : SvdOut α d) : SkOut α d k :=
   let c := relu (cutoff k o)
-  let defl : Vec α k := force fun a => skDeflated k sqrt o a
+  let defl : Vec α k := fun a => skDeflated k sqrt o a
   let mask : Fin k → Bool := fun a => decide (0 < defl a)
   let tail := st.t * β + c * c
-  let und : Vec α k := force fun a => skUndeflated k β st.t o a
+  let und : Vec α k := fun a => skUndeflated k β st.t o a
   let eps := if relative && decide (0 < epsilon) then
       ((List.finRange k).foldl (fun acc a => max acc (und a)) 0) * epsilon else epsilon
-  { st := { V := forceM fun i a => if mask a then uAt o.U i a.1 else 0
+  { st := { V := fun i a => if mask a then uAt o.U i a.1 else 0
             e := fun a => if mask a then defl a else 0
             t := tail }
     invEig := fun a => if mask a then pw (und a + eps) else 0
